@@ -98,6 +98,28 @@ def gen_semver(rng):
     return s
 
 
+def gen_golang(rng):
+    """Go module versions: a leading v and the +incompatible build tag are the rule, not the exception"""
+    s = gen_semver(rng)
+    r = rng.random()
+    if r < 0.5:
+        s = "v" + s.lstrip("vV")
+    if rng.random() < 0.3:
+        core = s.partition("+")[0]
+        s = core + "+" + rng.choice(["incompatible", "incompatible", "incompatible.1", "build.1", "dirty"])
+    return s
+
+
+def gen_composer(rng):
+    """Composer versions: stability suffixes (-dev, -alpha, -beta, -RC, -patch / -pl / -p, -stable) with an optional number"""
+    s = gen_semver(rng)
+    if rng.random() < 0.35:
+        core = s.partition("+")[0].partition("-")[0]
+        suf = rng.choice(["patch", "pl", "p", "RC", "rc", "beta", "alpha", "dev", "stable", "b", "a"])
+        s = core + "-" + suf + rng.choice(["", "1", "2", ".1", "10"])
+    return s
+
+
 def respell_semver(s, rng):
     r = rng.random()
     core, plus, build = s.partition("+")
@@ -263,6 +285,11 @@ def gen_rpm(rng):
     s += seg()
     if rng.random() < 0.5:
         s += "-" + seg()
+        r = rng.random()
+        if r < 0.06:
+            s += "-" + seg()          # a second dash: where the release starts is the parser's decision
+        elif r < 0.10:
+            s += "-"                  # ... and a trailing dash
     return s
 
 
@@ -293,7 +320,7 @@ def gen_alpm(rng, pkgrel=None):
         s += rng.choice(["0", "1", "2"]) + ":"
     out = _num(rng, lead0=0.1)
     for _ in range(rng.randint(0, 4)):
-        out += rng.choice([".", ".", ".", "_", "+", "", ".."]) + rng.choice([_num(rng, lead0=0.1), _word(rng, "abpz"), "rc1", "a", "beta2"])
+        out += rng.choice([".", ".", ".", "_", "+", "", "..", "...", "___", "+++", "._.", "...."]) + rng.choice([_num(rng, lead0=0.1), _word(rng, "abpz"), "rc1", "a", "beta2"])
     s += out
     if pkgrel is None:
         pkgrel = rng.random() < 0.5
@@ -314,9 +341,12 @@ def respell_alpm(s, rng):
             m = rng.choice(runs)
             off = len(s) - len(tail)
             return s[:off + m.start()] + "0" + s[off + m.start():]
-    if r < 0.85:
+    if r < 0.8:
         return s.replace(".", "_", 1)
-    return s.replace(".", "+", 1)
+    if r < 0.9:
+        return s.replace(".", "+", 1)
+    # NOT equal: a separator run of another length (1.0 / 1..0 / 1...0 are three different versions)
+    return s.replace(".", rng.choice(["..", "...", "...."]), 1)
 
 
 # ----------------------------------------------------------------------------- gentoo / alpine
@@ -579,7 +609,7 @@ def respell_plain(s, rng):
 
 
 GEN = {
-    "semver": gen_semver, "golang": gen_semver, "composer": gen_semver, "nginx": gen_nginx,
+    "semver": gen_semver, "golang": gen_golang, "composer": gen_composer, "nginx": gen_nginx,
     "pypi": gen_pypi, "generic": gen_generic, "deb": gen_deb, "rpm": gen_rpm, "maven": gen_maven,
     "nuget": gen_nuget, "gem": gen_gem, "ebuild": gen_ebuild, "alpine": gen_alpine, "alpm": gen_alpm,
     "conan": gen_conan, "openssl": gen_openssl, "legacy_openssl": gen_legacy_openssl,
